@@ -195,7 +195,13 @@ func (fd *Client) UpdateTable(ctx context.Context, input *dynamodb.UpdateTableIn
 	}
 
 	if input.AttributeDefinitions != nil {
-		table.SetAttributeDefinition(mapDynamoToTypesAttributeDefinitionSlice(input.AttributeDefinitions))
+		defs := mapDynamoToTypesAttributeDefinitionSlice(input.AttributeDefinitions)
+
+		if err := table.CheckAttributeDefinition(defs); err != nil {
+			return nil, &smithy.GenericAPIError{Code: "ValidationException", Message: err.Error()}
+		}
+
+		table.SetAttributeDefinition(defs)
 	}
 
 	for _, change := range input.GlobalSecondaryIndexUpdates {
